@@ -902,6 +902,19 @@ def family_shapes():
             "start": "A",
         },
     )
+    # S35 a union one of whose members is a container type (a size-refined list of nodes)
+    out.append(
+        {
+            "name": "S35:union-with-list-member",
+            "abstract": [["A", None, "ABC"]],
+            "prods": [
+                ["L", "A", None, [["v", IR01]]],
+                ["W", "A", None, [["x", ref("A")]]],
+                ["U", "A", None, [["u", ["union", lsb(ref("W"), 1, 2), ref("L")]]]],
+            ],
+            "start": "A",
+        },
+    )
     # S16 union of two abstract types of different minimum depth
     out.append(
         {
@@ -971,7 +984,7 @@ def finite_family(tier: str):
     fa = finite_alphabet()
     out = list(family_one_abstract(fa, 1 if tier == "quick" else 2, "F1"))
     out += [s for s in family_shapes() if s["name"].split(":")[0] in
-            ("S1", "S2", "S3", "S4", "S5", "S6", "S7", "S8", "S9", "S10", "S12", "S13", "S14", "S15", "S16", "S17", "S18", "S19", "S20", "S22", "S23", "S24", "S26", "S27", "S28", "S29", "S30", "S31", "S32", "S33", "S34")]
+            ("S1", "S2", "S3", "S4", "S5", "S6", "S7", "S8", "S9", "S10", "S12", "S13", "S14", "S15", "S16", "S17", "S18", "S19", "S20", "S22", "S23", "S24", "S26", "S27", "S28", "S29", "S30", "S31", "S32", "S33", "S34", "S35")]
     out += list(family_two_abstract(finite_alphabet, "F2"))
     out += list(family_nested(finite_alphabet, "F3"))
     return out
